@@ -2,7 +2,7 @@ from .base import *
 from fractions import Fraction
 
 ID = 'C07'
-THEOREMS = ['C07_angle_steps', 'C07_geonum_steps', 'C07_base_angle', 'C07_is_opposite', 'C07_history', 'C07_four_more']
+THEOREMS = ['C07_angle_steps', 'C07_geonum_steps', 'C07_base_angle', 'C07_is_opposite', 'C07_history', 'C07_four_more', 'C07_copy_blade', 'C07_grade_angle_range']
 OWNED = {'ADual', 'AUndual', 'ANeg', 'AConj', 'ABase', 'AGrade', 'AIsGrade', 'AGradeAngle', 'AIsOpp', 'GDual', 'GUndual', 'GNeg',
          'GDiff', 'GInt', 'GIncr', 'GDecr', 'GBase', 'GCopyBlade', 'AAdd', 'ASub', 'AMul', 'ADivA'}
 RULE = ('single applications of every step operator on canonical angles/geonums (threshold remainders, blades to 2^40); is_opposite on blade pairs around 2, 2^31, 2^32+2, 2^40 with equal / 1-ulp / 1e-15 / far remainders; '
